@@ -217,7 +217,7 @@ impl Matrix {
     /// 0).
     pub fn is_upper_triangular(&self) -> bool {
         for i in 0..self.nrows {
-            for j in 0..i {
+            for j in 0..i.min(self.ncols) {
                 if self[i][j] != 0. {
                     return false;
                 }
